@@ -26,7 +26,9 @@ THEOREMS = ["code_shape_is_repaired", "check_readonly", "check_reports_unfixed",
             "check_sound", "check_clean_iff", "fix_converges", "fix_idempotent", "fix_noop_on_consistent",
             "fix_preserves_wf", "fix_mirrors", "run_never_fails", "store_run_never_fails", "fix_run_repairs",
             "universe_schema_ok", "empty_alias_clean", "one_transaction_fix_converges", "dup_and_missing_entry_converges",
-            "junk_at_missing_value_converges", "emptied_store_converges"]
+            "junk_at_missing_value_converges", "emptied_store_converges",
+            "layered_scan_is_view", "layered_access_is_view", "layered_check_sound", "layered_check_sound_reports",
+            "layered_check_complete", "layered_check_readonly", "layered_fix_converges", "layered_healthy_clean"]
 TABLE_OBLIGATIONS = ["code_shape_is_repaired (Generated/C09Quirks.lean, regenerated from boltz/link_collection.go and "
                      "boltz/indexes.go: IterateLinks is a read-only lookup, the unique-index entity loop skips an empty "
                      "value like nil, dangling links are removed after the link-cursor loop)"]
@@ -83,13 +85,19 @@ RULE = ("random histories (4-17 operations through Create/Update/DeleteById/SetL
         "collection pair) followed by 0-6 raw bbolt corruptions drawn from every supported class; one case in eight "
         "is run three times (separate transactions, one transaction things-then-owners, one transaction "
         "owners-then-things); plus a fixed 8-entity state (ids a1/a11 and b1/b11 in a prefix relation sharing every list) with every single corruption of a 46-entry catalogue and "
-        "sampled pairs (quick) / every subset of <= 3 corruptions (thorough); plus INTERACTING corruptions: for 13 shared "
+        "sampled pairs (quick) / every subset of <= 3 corruptions (thorough); plus INTERACTING corruptions: for 21 shared "
         "targets (a unique value of things.name / things.alias / owners.label, the set-index values r1 and r11, the fk "
         "pairs owner / home / boss, a link pair, one entity, and the stores emptied or never used) every class of "
         "corruption that can be aimed at the target, all pairs (both tiers; thorough also in the opposite order and "
         "inside one transaction in both store orders) and all triples (thorough) / a seeded sample of them (quick); one "
         "random history in three gets 2-3 corruptions aimed at one target chosen inside the state it produced. An "
-        "error returned by CheckIntegrity is part of the compared outcome (clause `aborted`). non-trivial = at least one corruption "
+        "error returned by CheckIntegrity is part of the compared outcome (clause `aborted`). LAYERED stores: things has "
+        "an extended child store things_x (non-nullable unique badge, nullable unique tag, set index caps, non-nullable "
+        "fk constraint sponsor) and a plain child store things_p (code, nick, marks); every thing of a random history is "
+        "created / updated through the parent or one of the child stores (a thing may carry neither, one or both kinds of "
+        "child data), corruptions also hit the child stores' indexes, fields and membership (data bucket deleted / created "
+        "empty); all 64 assignments of {parent-only, extended, plain, both} to three ids as healthy databases and with one "
+        "child-index corruption; 8 more shared targets inside the child stores. non-trivial = at least one corruption "
         "applied and at least one report in the check-only phase; distinct = (mode, sorted set of (class, index) "
         "pairs reported in phase 1, number of reports in phase 3)")
 
@@ -109,7 +117,10 @@ def describe(case, impl, model, spec):
 
 # -------------------------------------------------------------------------------- execution
 
-def run_all(ctx, lines):
+PARALLEL = 4          # harness / driver processes run side by side on large case sets
+
+
+def _run_chunk(ctx, lines):
     text = "\n".join(lines) + "\n"
     impl, model, _ = common.run_cases(ctx, PROP, text, want_spec=False)
     if len(impl) != len(lines) or len(model) != len(lines):
@@ -119,6 +130,26 @@ def run_all(ctx, lines):
     spec = out.split("\n")
     if spec and spec[-1] == "":
         spec.pop()
+    return impl, model, spec
+
+
+def run_all(ctx, lines):
+    """implementation, model and spec verdict per case line; large sets are cut into PARALLEL contiguous chunks that
+    run side by side (every case is independent: a fresh database per case) and are concatenated in order"""
+    if len(lines) < 1000:
+        return _run_chunk(ctx, lines)
+    from concurrent.futures import ThreadPoolExecutor
+    k = (len(lines) + PARALLEL - 1) // PARALLEL
+    chunks = [lines[i:i + k] for i in range(0, len(lines), k)]
+    with ThreadPoolExecutor(max_workers=PARALLEL) as ex:
+        parts = list(ex.map(lambda ch: _run_chunk(ctx, ch), chunks))
+    impl, model, spec = [], [], []
+    for (a, m, sp), ch in zip(parts, chunks):
+        if sp is None or len(sp) != len(ch):
+            return impl + a, model + m, None
+        impl += a
+        model += m
+        spec += sp
     return impl, model, spec
 
 
